@@ -81,9 +81,9 @@ type SimStore struct {
 	Log        []Call
 	handed     []handed
 	handedM    []handedMeta
-	Cancel     context.CancelFunc // set by the harness when the context is cancellable
-	Yield      func(site string)  // cooperative scheduler hook (C11); nil elsewhere
-	Nested     func(site string)  // re-entrant use (C11): the store itself runs a script before it answers
+	Cancel     context.CancelFunc                     // set by the harness when the context is cancellable
+	Yield      func(site string)                      // cooperative scheduler hook (C11); nil elsewhere
+	Nested     func(ctx context.Context, site string) // re-entrant use (C11): the store itself runs a script, with the context it was handed, before it answers
 	Fired      map[string]int
 	WorldAsked bool
 }
@@ -273,7 +273,7 @@ func (s *SimStore) GetBalances(ctx context.Context, q interpreter.BalanceQuery) 
 		s.Yield("store.GetBalances")
 	}
 	if s.Nested != nil {
-		s.Nested("store.GetBalances")
+		s.Nested(ctx, "store.GetBalances")
 	}
 	call := Call{N: s.n, Kind: "balances", Query: canonQuery(q)}
 	if _, ok := q["world"]; ok {
@@ -340,7 +340,7 @@ func (s *SimStore) GetAccountsMetadata(ctx context.Context, q interpreter.Metada
 		s.Yield("store.GetAccountsMetadata")
 	}
 	if s.Nested != nil {
-		s.Nested("store.GetAccountsMetadata")
+		s.Nested(ctx, "store.GetAccountsMetadata")
 	}
 	call := Call{N: s.n, Kind: "meta", Query: canonQuery(q)}
 	if f, ok := s.fault(); ok {
